@@ -428,6 +428,26 @@ def gen_update_exiting(g: Gen, c: Contract):
             'new_region_name': 'n' if r.random() < 0.9 else r.choice(UNIVERSE)}
 
 
+def gen_branch_pairs(g: Gen, c: Contract):
+    """a level (as for the view iterator) with the immediate (post-)dominator maps of the real helpers, or random maps"""
+    r = g.rng
+    args = gen_view(g, c)
+    scfg = args['self'].scfg
+    keys = list(scfg.graph)
+    imm = post = None
+    if r.random() < 0.6:
+        try:
+            from numba_scfg.core import transformations as T
+            imm, post = T._imm_doms(T._doms(scfg)), T._imm_doms(T._post_doms(scfg))
+        except Exception:
+            imm = None
+    if imm is None:
+        pool = keys + ['zz']
+        imm = {k: r.choice(pool) for k in pool if r.random() < 0.9}
+        post = {k: r.choice(pool) for k in keys if r.random() < 0.8}
+    return {'scfg': scfg, 'immdoms': imm, 'postimmdoms': post}
+
+
 def gen_region_field(g: Gen, c: Contract):
     r = g.rng
     blk = g.bb.RegionBlock(name=g.name(), _jump_targets=tuple(g.names(0, 2)), backedges=(), kind=r.choice(['loop', 'branch', 'meta']),
@@ -500,7 +520,7 @@ def gen_scfg_only(g: Gen, c: Contract):
     return {'scfg': g.scfg(with_be=0.15, ext=0.4)}
 
 
-GENERATORS = {'extract_region': gen_extract_region, 'region_field': gen_region_field, 'iter_scfg': gen_iter_scfg, 'sync_exiting': gen_sync_exiting, 'update_exiting': gen_update_exiting, 'head_blocks': gen_head_blocks, 'branch_regions': gen_branch_regions, 'view': gen_view, 'scfg_only': gen_scfg_only, 'dom_tables': gen_dom_tables, 'stream': gen_stream, 'flowinfo': gen_flowinfo, 'block_bcmap': gen_block_bcmap, 'namegen': gen_namegen, 'insert_ctrl': gen_insert_ctrl, 'tails_exits': gen_tails_exits, 'graph_and_pair': gen_graph_and_pair, 'graph_and_subset': gen_graph_and_subset, 'insert': gen_insert, 'branch_replace': gen_branch_replace}
+GENERATORS = {'branch_pairs': gen_branch_pairs, 'extract_region': gen_extract_region, 'region_field': gen_region_field, 'iter_scfg': gen_iter_scfg, 'sync_exiting': gen_sync_exiting, 'update_exiting': gen_update_exiting, 'head_blocks': gen_head_blocks, 'branch_regions': gen_branch_regions, 'view': gen_view, 'scfg_only': gen_scfg_only, 'dom_tables': gen_dom_tables, 'stream': gen_stream, 'flowinfo': gen_flowinfo, 'block_bcmap': gen_block_bcmap, 'namegen': gen_namegen, 'insert_ctrl': gen_insert_ctrl, 'tails_exits': gen_tails_exits, 'graph_and_pair': gen_graph_and_pair, 'graph_and_subset': gen_graph_and_subset, 'insert': gen_insert, 'branch_replace': gen_branch_replace}
 
 
 def gen_args(g: Gen, c: Contract):
